@@ -95,10 +95,8 @@ def estimates_with_small_magnitude_matrices(c, param):
     data = np.asarray(BP.data, dtype=float)
     with contextlib.redirect_stdout(io.StringIO()), warnings.catch_warnings():
         warnings.simplefilter('ignore')
-        ml = 'skipped'
-        if param == 'cov':                       # (with precisions around 1e-9 the gradient is below SciPy's absolute tolerance at every point: the optimiser's stopping rule, not under contract)
-            try: ml = np.asarray(BP.ML(disp=False), dtype=float)
-            except Exception: ml = None
+        try: ml = np.asarray(BP.ML(disp=False), dtype=float)       # (param == 'prec': precisions around 1e-9 put the gradient below SciPy's ABSOLUTE tolerance at every
+        except Exception: ml = None                                 # point - the start vector comes back as "the estimate"; an earlier version skipped this case: finding)
         if param == 'prec': BP.likelihood.distribution.compute_cov(); BP.prior.compute_cov()
         try: mp = np.asarray(BP.MAP(disp=False), dtype=float)
         except Exception: mp = None
@@ -109,6 +107,23 @@ def estimates_with_small_magnitude_matrices(c, param):
         if est is None: c.holds(f'{nm}:failure_is_reported_by_raising', True); continue
         c.holds(f'{nm}:estimate_is_the_maximiser_of_the_documented_posterior', bool(np.linalg.norm(est - ref) <= 1e-3 * (np.linalg.norm(ref) + 1e-300)),
                 note=f"estimate {est} vs closed form {ref}")
+
+
+def ml_weakly_informative(c, noise_std):
+    """the same well-posed least-squares problem (6 x 3, full column rank) with the noise level in other units: the ML estimate is the least-squares solution
+    whatever the noise variance (it does not depend on it) - or the call fails; it is never the start vector (bounded stand-in: native)"""
+    import io, contextlib, warnings
+    m, n = 6, 3
+    A = np.array([[c.real(f'A{i}{j}') for j in range(n)] for i in range(m)]) + np.vstack([np.eye(n), np.eye(n)])
+    xt = np.array([3.0, -2.0, 5.0]); y = A @ xt + noise_std * np.array([c.real(f'e{i}') for i in range(m)]) * 0.1
+    x = Gaussian(np.zeros(n), 1.0, name='x'); yd = Gaussian(LinearModel(A)(x), noise_std ** 2, name='y')
+    BP = BayesianProblem(yd, x).set_data(y=y)
+    with contextlib.redirect_stdout(io.StringIO()), warnings.catch_warnings():
+        warnings.simplefilter('ignore')
+        try: ml = np.asarray(BP.ML(disp=False), dtype=float)
+        except Exception: c.holds('ML:estimate_is_the_least_squares_solution_or_the_call_fails', True); return
+    ref = np.linalg.lstsq(np.asarray(A, dtype=float), np.asarray(y, dtype=float), rcond=None)[0]
+    c.holds('ML:estimate_is_the_least_squares_solution_or_the_call_fails', bool(np.linalg.norm(ml - ref) <= 1e-3 * np.linalg.norm(ref)), note=f"estimate {ml} vs least squares {ref}")
 
 
 def estimates_across_sparse_switch(c, param, who):
@@ -409,6 +424,8 @@ def jobs(tier):
     for param in ('cov', 'prec'):
         J.append(Job(f'ML_and_MAP:full_noise_matrix_of_small_magnitude:{param}', lambda c, p_=param: estimates_with_small_magnitude_matrices(c, p_), 'B',
                      [f'{PR}:BayesianProblem.ML', f'{PR}:BayesianProblem.MAP', 'cuqi.distribution._gaussian:get_sqrtprec_from_cov', 'cuqi.distribution._gaussian:get_sqrtprec_from_prec'], nnum=3))
+    for std in (1.0, 1e-3, 1e2, 1e4):
+        J.append(Job(f'ML:optimisation_route:same_least_squares_problem_noise_std={std:g}', lambda c, sd=std: ml_weakly_informative(c, sd), 'B', [f'{PR}:BayesianProblem.ML', f'{PR}:BayesianProblem._solve_max_point'], nnum=3))
     for param in ('cov', 'prec'):
         for who in (('noise', 'prior') if q else ('noise', 'prior', 'both')):
             J.append(Job(f'ML_and_MAP:full_matrices_on_the_sparse_side_of_the_storage_switch:{param}:{who}', lambda c, p_=param, w=who: estimates_across_sparse_switch(c, p_, w), 'B',
